@@ -6,6 +6,7 @@ import (
 	"fmt"
 	"math"
 	"sort"
+	"strings"
 	"testing"
 
 	"pgregory.net/rapid"
@@ -33,6 +34,23 @@ func finalState(body []byte) (*Snap, *Resp, Outcome, *Fail) {
 		return nil, nil, out, failf("harness-probe-count", "trailing probe not called")
 	}
 	return rec.Snaps[len(rec.Snaps)-1], r, out, nil
+}
+
+// consideredInRequestOrder: the fixed search order is the order of `choseToMake` in the request (the state the
+// method receives must list the considered alternatives in that order; biases keep it).
+func consideredInRequestOrder(v *ReqView, s *Snap) ([]SnapAlt, *Fail) {
+	if len(s.Cons) != len(v.Chose) {
+		return nil, failf("considered-set", "the method received %d considered alternatives %v for choseToMake %v", len(s.Cons), s.ids(true), v.Chose)
+	}
+	out := make([]SnapAlt, 0, len(v.Chose))
+	for _, id := range v.Chose {
+		a := s.alt(id)
+		if a == nil || !setOf(s.ids(true))[id] {
+			return nil, failf("considered-set", "choseToMake names %s but the method received considered alternatives %v", id, s.ids(true))
+		}
+		out = append(out, *a)
+	}
+	return out, nil
 }
 
 type mEntry struct {
@@ -226,6 +244,10 @@ func analyseC11(c ReqCase) (*c11Info, *Fail) {
 	if f != nil {
 		return nil, f
 	}
+	if !out.OK && strings.Contains(out.Err, "unsupported value") && overflowExcused(body) {
+		st.inc("skipped-exp-overflow") // the documented exponential anchoring formula is not a finite float64 here
+		return nil, nil
+	}
 	if !out.OK {
 		return nil, failf("majority-accepted", "valid majority request rejected: %s", out.Err)
 	}
@@ -240,17 +262,21 @@ func analyseC11(c ReqCase) (*c11Info, *Fail) {
 	randomOrder, _ := v.MP["randomAlternativesOrdering"].(bool)
 	cc := str(v.MP["currentChoice"])
 	// search order: current choice first, then the considered alternatives (without it)
+	cons, cf := consideredInRequestOrder(v, snap)
+	if cf != nil {
+		return nil, cf
+	}
 	var first *SnapAlt
 	var rest []SnapAlt
 	if cc != "" {
 		first = snap.alt(cc)
-		for _, a := range snap.Cons {
+		for _, a := range cons {
 			if a.Id != cc {
 				rest = append(rest, a)
 			}
 		}
 	} else {
-		rest = append(rest, snap.Cons...)
+		rest = append(rest, cons...)
 	}
 	info := &c11Info{randomOrder: randomOrder, randomPolicy: policy == "random", considered: len(snap.Cons)}
 	mg := newMargin()
